@@ -58,9 +58,12 @@ Next == /\ Seed(cur)
 LitOf(c) == Literal(c.D, c.p, c.z, c.t, c.ef, c.neg, FALSE)
 \* the plain spelling of D * 10^t: D followed by t zeros; for t < 0 the last -t digits are cut (integral iff they are zeros)
 PlainParts(c) ==
-  LET cut == IF c.t < 0 THEN 0 - c.t ELSE 0 IN
-  [ok |-> TRUE, neg |-> c.neg, int |-> IF c.t >= 0 THEN c.D \o ZeroDigits(c.t) ELSE SubSeq(c.D, 1, Len(c.D) - cut),
-   frac |-> IF c.t >= 0 THEN <<>> ELSE SubSeq(c.D, Len(c.D) - cut + 1, Len(c.D)), eneg |-> FALSE, exp |-> <<>>]
+  LET cut == IF c.t < 0 THEN 0 - c.t ELSE 0
+      n == Len(c.D) IN
+  [ok |-> TRUE, neg |-> c.neg,
+   int |-> IF c.t >= 0 THEN c.D \o ZeroDigits(c.t) ELSE IF cut >= n THEN <<0>> ELSE SubSeq(c.D, 1, n - cut),
+   frac |-> IF c.t >= 0 THEN <<>> ELSE IF cut >= n THEN ZeroDigits(cut - n) \o c.D ELSE SubSeq(c.D, n - cut + 1, n),
+   eneg |-> FALSE, exp |-> <<>>]
 NotationFree == Seed(cur) \/
   LET p == NumParts(LitOf(cur)) IN
   /\ p.ok
